@@ -207,3 +207,13 @@ Print Assumptions C11_join_resolve_once.
 Theorem C11_join_caller_before_resolution_partial : forall v np ops c, jreach v np ops c -> wf_jcaller (jevents c).
 Proof. exact join_caller_before_resolution. Qed.
 Print Assumptions C11_join_caller_before_resolution_partial.
+
+(* seeded C11-r2-1 (Join: parent.clientsRefs++ instead of += p.clientsRefs) refuted on the Join model: after
+   ReleaseClients on the two joined promises of a child-first chain the client is already released *)
+Theorem C11_join_refs_refuted :
+  match jquiesce jrefs1 1000 (jinit 3 refs_history) 7 with
+  | Some c => In (JEDirect 6 DFail) (jevents c) /\ p_relflag (getp c 0) = false
+  | None => False
+  end.
+Proof. exact join_refs_refuted. Qed.
+Print Assumptions C11_join_refs_refuted.
